@@ -73,6 +73,9 @@ structure ImageRep where
   encrypted : Bool
   deriving Repr, DecidableEq
 
+/-- the remaining documented fields of entry at `pos`: load address (0x08), entry point (0x10), meta data (0x1C) -/
+def entryExtra (bin : Bytes) (pos : Nat) : Nat × Nat × Nat := (rd bin (pos + 8) 8, rd bin (pos + 0x10) 8, rd bin (pos + 0x1C) 4)
+
 /-- one image-array entry at absolute position `pos`; `base` = start of its container -/
 def checkEntry (c : CryptoOps) (p : Params) (bin : Bytes) (base pos : Nat) (dek : Option Bytes) : Except String ImageRep :=
   let off := rd bin pos 4
